@@ -386,3 +386,76 @@ Theorem C09_payout_bound_tight :
    maxReorg <= tipH /\ payout_reads delay avg tipH h /\ 0 <= h /\ h < retained_low 0 tipH maxReorg preserve)%Z.
 Proof. exact payout_bound_tight. Qed.
 Print Assumptions C09_payout_bound_tight.
+
+(* ---- the finalization cascade over the three trees (Store/StackDefs.v, Store/StackHistory.v):
+        AltBlockTree::finalizeBlocks -> VbkBlockTree::finalizeBlocks (bounded by the refs of the BTC tip) ->
+        BlockTree<BtcBlock>::finalizeBlocks; per-tree operations are what addPayloads / removePayloads / setState of
+        the tree above do to an SP tree (tip switch through assertBlockCanBeUnapplied, block addition, save,
+        removeSubtree / invalidateSubtree) *)
+From VB Require Import Store.StackDefs Store.StackHistory.
+
+(* a finalized block of the ALT, VBK or BTC best chain stays on that chain and final under EVERY history of
+   per-tree operations on the three trees interleaved with cascades carrying any reference list (or has been
+   deallocated behind the root) *)
+Theorem C09_stack_history_keeps_final :
+  forall fuel p ops s s' w b,
+  s_never_readds w b ops = true ->
+  In b (t_chain (tree_of s w)) -> is_final (tree_of s w) b = true ->
+  srun true fuel p ops s = SOk s' ->
+  (In b (t_chain (tree_of s' w)) /\ is_final (tree_of s' w) b = true) \/ flookup (t_blocks (tree_of s' w)) b = None.
+Proof. exact stack_history_keeps_final. Qed.
+Print Assumptions C09_stack_history_keeps_final.
+
+(* a tip switch of any of the three trees that would leave a finalized block of it aborts *)
+Theorem C09_sp_setState_below_final_aborts :
+  forall fuel p s w to b,
+  In b (t_chain (tree_of s w)) -> is_final (tree_of s w) b = true ->
+  ~ In b (common_prefix (t_chain (tree_of s w)) (path_to fuel (tree_of s w) to [])) ->
+  sstep true fuel p s (SOn w (GOp (FSetTip to))) = SAbort.
+Proof. exact sp_setState_below_final_aborts. Qed.
+Print Assumptions C09_sp_setState_below_final_aborts.
+
+(* the VBK step of the cascade respects the bound: a reference of the BTC tip at or below the requested block
+   leaves the VBK tree untouched *)
+Theorem C09_cascade_vbk_bounded :
+  forall fuel p refs s fi r,
+  (height_of (s_vbk s) (tip_of (s_vbk s)) <? sp_vbk_maxreorg p) = false ->
+  chain_at (s_vbk s) (N.max (height_of (s_vbk s) (root_of (s_vbk s)))
+                            (height_of (s_vbk s) (tip_of (s_vbk s)) - sp_vbk_maxreorg p)) = Some fi ->
+  In r refs -> r <= height_of (s_vbk s) fi ->
+  s_vbk (stack_finalize fuel p refs s) = s_vbk s.
+Proof. exact cascade_vbk_bounded. Qed.
+Print Assumptions C09_cascade_vbk_bounded.
+
+(* a BTC tree whose tip is below maxReorgBlocks (asserted >= 2016 by BtcChainParams) is untouched by the cascade *)
+Theorem C09_cascade_tree_below_maxreorg_untouched :
+  forall fuel p refs s,
+  (height_of (s_btc s) (tip_of (s_btc s)) <? sp_btc_maxreorg p) = true ->
+  s_btc (stack_finalize fuel p refs s) = s_btc s.
+Proof. exact cascade_tree_below_maxreorg_untouched. Qed.
+Print Assumptions C09_cascade_tree_below_maxreorg_untouched.
+
+(* the hypotheses are met by a concrete stack (VBK 0..20 with a stale fork on block 4, cascade finalizes VBK 0..9) *)
+Theorem C09_stack_cascade_satisfiable :
+  highest_final (s_vbk demo_after) = Some 9 /\ root_of (s_vbk demo_after) = 0 /\ tip_of (s_vbk demo_after) = 20 /\
+  In 9 (t_chain (tree_of demo_after TVbk)) /\ is_final (tree_of demo_after TVbk) 9 = true /\
+  flookup (t_blocks (s_vbk demo_after)) 106 <> None /\
+  s_vbk (stack_finalize 40 demo_params [15; 9] demo_stack) = s_vbk demo_stack /\
+  s_btc demo_after = s_btc demo_stack /\ s_alt demo_after = s_alt demo_stack /\
+  sstep true 40 demo_params demo_after (SOn TVbk (GOp (FSetTip 106))) = SAbort /\
+  sstep true 40 demo_params demo_after (SOn TVbk (GUnapplyFrom 7)) = SAbort /\
+  s_never_readds TVbk 9 [SCascade [15;12]; SOn TVbk (GOp (FAdd 21 20 [])); SOn TBtc (GOp (FAdd 9 5 [])); SOn TVbk (GOp (FSetTip 21))] = true /\
+  (exists s', srun true 40 demo_params
+                [SCascade [15;12]; SOn TVbk (GOp (FAdd 21 20 [])); SOn TBtc (GOp (FAdd 9 5 [])); SOn TVbk (GOp (FSetTip 21))]
+                demo_stack = SOk s' /\ tip_of (s_vbk s') = 21 /\ In 9 (t_chain (s_vbk s'))).
+Proof. exact stack_cascade_satisfiable. Qed.
+Print Assumptions C09_stack_cascade_satisfiable.
+
+(* with assertBlockCanBeUnapplied compiled out the SP statement is false: the stale VBK fork is activated and the
+   finalized VBK block 9 is off the best chain while still in memory *)
+Theorem C09_stack_guard_debug_only_refuted :
+  (exists s', srun false 40 demo_params [SCascade [15;12]; SOn TVbk (GOp (FSetTip 106))] demo_stack = SOk s' /\
+              is_final (s_vbk s') 9 = true /\ ~ In 9 (t_chain (s_vbk s')) /\ flookup (t_blocks (s_vbk s')) 9 <> None) /\
+  srun true 40 demo_params [SCascade [15;12]; SOn TVbk (GOp (FSetTip 106))] demo_stack = SAbort.
+Proof. exact stack_guard_debug_only_refuted. Qed.
+Print Assumptions C09_stack_guard_debug_only_refuted.
